@@ -283,6 +283,7 @@ func (x *Exec) bindLocals(env *Env, s *State, li *loopInfo) {
 	type cand struct {
 		v   ssa.Value
 		pos int
+		raw bool // bind the SSA value itself (a pointer held in a variable), do not load
 	}
 	best := map[string]cand{}
 	consider := func(name string, v ssa.Value, pos int) {
@@ -301,7 +302,7 @@ func (x *Exec) bindLocals(env *Env, s *State, li *loopInfo) {
 		}
 		c, ok := best[name]
 		if !ok || pos >= c.pos {
-			best[name] = cand{v, pos}
+			best[name] = cand{v, pos, false}
 		}
 	}
 	// loop-head phis take precedence inside their loop
@@ -321,6 +322,12 @@ func (x *Exec) bindLocals(env *Env, s *State, li *loopInfo) {
 						continue
 					}
 					if _, isAlloc := t.X.(*ssa.Alloc); isAlloc {
+						// the variable's value is the pointer to that allocation
+						if _, ok := s.env[t.X]; ok {
+							if c, seen := best[id.Name]; !seen || pos >= c.pos {
+								best[id.Name] = cand{t.X, pos, true}
+							}
+						}
 						continue
 					}
 					consider(id.Name, t.X, pos)
@@ -331,7 +338,7 @@ func (x *Exec) bindLocals(env *Env, s *State, li *loopInfo) {
 	if li != nil {
 		for _, in := range li.head.Instrs {
 			if p, ok := in.(*ssa.Phi); ok && p.Comment != "" {
-				best[p.Comment] = cand{p, 1 << 30}
+				best[p.Comment] = cand{p, 1 << 30, false}
 			}
 		}
 	}
@@ -348,10 +355,18 @@ func (x *Exec) bindLocals(env *Env, s *State, li *loopInfo) {
 			// a local shadowing/reassigning a parameter: keep the parameter's entry value under the
 			// plain name; the current value is available as name$
 			c := best[n]
-			env.vars[n+"$"] = x.localValue(s, c.v)
+			if c.raw {
+				env.vars[n+"_cur"] = s.env[c.v]
+			} else {
+				env.vars[n+"_cur"] = x.localValue(s, c.v)
+			}
 			continue
 		}
-		env.vars[n] = x.localValue(s, best[n].v)
+		if best[n].raw {
+			env.vars[n] = s.env[best[n].v]
+		} else {
+			env.vars[n] = x.localValue(s, best[n].v)
+		}
 	}
 }
 
